@@ -43,8 +43,9 @@ import (
 type c18Knobs struct {
 	MaxIssueDelayMs int64  `json:"MaxIssueDelay_ms"`
 	MaxClockSkewMs  int64  `json:"MaxClockSkew_ms"`
-	Trust           string `json:"trust"`    // md1 | md2 | md1+enc | pinned | fingerprint
-	UseAttr         string `json:"use_attr"` // KeyDescriptor use of signing certs: "signing" | ""
+	Trust           string `json:"trust"`                               // md1 | md2 | md1+enc | pinned | fingerprint | old+md1 (an expired certificate listed first) | ec+md1 (an ECDSA certificate listed first)
+	Verifier        bool   `json:"custom_signature_verifier,omitempty"` // the application installs a SignatureVerifier (one that validates exactly like the library)
+	UseAttr         string `json:"use_attr"`                            // KeyDescriptor use of signing certs: "signing" | ""
 	SPBase          string `json:"sp_base"`
 	IDPEntity       string `json:"idp_entity"`
 }
@@ -85,18 +86,19 @@ type c18Hit struct {
 }
 
 type c18Step struct {
-	Kind       string   `json:"kind"`  // deliver
-	Entry      string   `json:"entry"` // form | redirect | req-get | req-post
-	DelayMs    int64    `json:"delay_ms"`
-	Shape      string   `json:"shape"` // logout-response | one of the malformed shapes
-	BombMB     int      `json:"bomb_mb,omitempty"`
-	Resp       *c18Spec `json:"response,omitempty"`
-	Wire       []c18Op  `json:"wire,omitempty"`
-	Encoding   string   `json:"encoding,omitempty"` // "" proper | swap | trunc:<n> | badchar
-	Noise      []c18Hit `json:"noise,omitempty"`    // shape noise: byte-level damage in flight
-	RelayState string   `json:"relay_state,omitempty"`
-	QuerySig   bool     `json:"query_sig,omitempty"` // detached redirect-binding signature parameters present (never sufficient)
-	Intent     []string `json:"intent"`              // generator's labels (informational, logged)
+	Kind        string   `json:"kind"`  // deliver
+	Entry       string   `json:"entry"` // form | redirect | req-get | req-post
+	DelayMs     int64    `json:"delay_ms"`
+	Shape       string   `json:"shape"` // logout-response | one of the malformed shapes
+	BombMB      int      `json:"bomb_mb,omitempty"`
+	Resp        *c18Spec `json:"response,omitempty"`
+	Wire        []c18Op  `json:"wire,omitempty"`
+	Encoding    string   `json:"encoding,omitempty"` // "" proper | swap | trunc:<n> | badchar
+	Noise       []c18Hit `json:"noise,omitempty"`    // shape noise: byte-level damage in flight
+	RelayState  string   `json:"relay_state,omitempty"`
+	QuerySig    bool     `json:"query_sig,omitempty"`                       // detached redirect-binding signature parameters present (never sufficient)
+	URLFromDest bool     `json:"request_url_follows_destination,omitempty"` // req-get / req-post: the request target is the absolute URL the delivered document names as Destination
+	Intent      []string `json:"intent"`                                    // generator's labels (informational, logged)
 }
 
 const (
@@ -142,7 +144,8 @@ func genLogout(g *Rng, tier string) *Plan {
 	k := c18Knobs{
 		MaxIssueDelayMs: Pick(g, int64(1000), 7000, 90_000, 660_000, 7_200_000),
 		MaxClockSkewMs:  Pick(g, int64(0), 180_000, 1_020_000),
-		Trust:           []string{"md1", "md2", "md1+enc", "pinned", "fingerprint"}[g.PickW(30, 30, 15, 15, 10)],
+		Trust:           []string{"md1", "md2", "md1+enc", "pinned", "fingerprint", "old+md1", "ec+md1"}[g.PickW(26, 26, 12, 14, 10, 6, 6)],
+		Verifier:        g.Bool(0.15),
 		UseAttr:         Pick(g, "signing", "signing", ""),
 		SPBase:          Pick(g, "https://sp.example.com", "https://sp.example.com", "https://sp.example.com:8443", "http://localhost:8000"),
 		IDPEntity:       Pick(g, "https://idp.example.com/metadata", "https://idp.example.com/metadata", "urn:example:idp"),
@@ -157,6 +160,7 @@ func genLogout(g *Rng, tier string) *Plan {
 
 func c18GenStep(g *Rng, k c18Knobs, i int, tier string) c18Step {
 	st := c18Step{Kind: "deliver", Entry: Pick(g, "form", "redirect", "req-get", "req-post")}
+	st.URLFromDest = g.Bool(0.4)
 	st.DelayMs = Pick(g, int64(0), 1, 500, 5000, 60_000, 600_000, 7_000_000) + g.Int63n(1000)
 	if g.Bool(0.3) {
 		st.RelayState = Pick(g, "rs", "a b&c=d", "https://sp.example.com/after")
@@ -698,6 +702,9 @@ func (m *c18Model) sigClause() (int, string) {
 		return c18Open, "keyinfo-names-another-certificate"
 	case m.keyInfo != "own" && m.k.Trust == "fingerprint":
 		return c18Open, "fingerprint-trust-without-certificate"
+	case m.keyInfo != "own" && m.k.Verifier:
+		// how a signature that names no certificate is matched to one of several trusted certificates is then the application's verifier's business
+		return c18Open, "custom-verifier-without-certificate"
 	}
 	return c18OK, ""
 }
@@ -1108,11 +1115,18 @@ func c18NewSP(k c18Knobs) *saml.ServiceProvider {
 		signing = []KeyPair{rsaKeys[1]} // superseded by the pinned certificate
 	case "fingerprint":
 		signing = nil
+	case "old+md1":
+		signing = []KeyPair{rsaOld, rsaKeys[0]}
+	case "ec+md1":
+		signing = []KeyPair{ecKeys[0], rsaKeys[0]}
 	default:
 		signing = []KeyPair{rsaKeys[0]}
 	}
 	md := idpMetadataFor(k.IDPEntity, idpBase+"/sso", idpBase+"/slo", signing, enc, k.UseAttr)
 	spv := newSP(k.SPBase, rsaKeys[1], "", md)
+	if k.Verifier {
+		spv.SignatureVerifier = passVerifier{}
+	}
 	switch k.Trust {
 	case "pinned":
 		c := rsaKeys[0].CertB64()
@@ -1130,8 +1144,14 @@ func c18NewSP(k c18Knobs) *saml.ServiceProvider {
 	return spv
 }
 
-func c18Request(k c18Knobs, st *c18Step, payload string) *http.Request {
+func c18Request(k c18Knobs, st *c18Step, payload string, dest *string) *http.Request {
 	slo := c18SLO(k)
+	if st.URLFromDest && dest != nil {
+		// an absolute-form request target chosen by the sender: the URL the message claims to be for
+		if u, err := url.Parse(*dest); err == nil && u.IsAbs() && u.Host != "" && u.RawQuery == "" && u.Fragment == "" {
+			slo = *dest
+		}
+	}
 	if st.Entry == "req-get" {
 		q := url.Values{}
 		q.Set("SAMLResponse", payload)
@@ -1202,7 +1222,7 @@ func execLogout(t *testing.T, p *Plan) *Result {
 			case "redirect":
 				err = spv.ValidateLogoutResponseRedirect(payload)
 			default:
-				err = spv.ValidateLogoutResponseRequest(c18Request(k, &st, payload))
+				err = spv.ValidateLogoutResponseRequest(c18Request(k, &st, payload, m.dest))
 			}
 		})
 		observed := "ERROR"
